@@ -30,7 +30,7 @@ CONFIGS = {
     "GibbsChain": ["free", "box", "nonneg", "box+nonneg", "T2.5"],
     "MetropolisChain": ["free", "box", "T2.5"],
     "PcaChain": ["free", "box", "T2.5", "d3", "d3+box"],
-    "HamiltonianChain": ["free", "box", "mass-scalar", "mass-vector", "mass-matrix", "T2.5", "nograd", "box+nograd", "estmass-diag", "estmass-full"],
+    "HamiltonianChain": ["free", "box", "mass-scalar", "mass-vector", "mass-matrix", "T2.5", "nograd", "box+nograd", "estmass-diag", "estmass-full", "box+compressed", "mass-matrix+compressed"],
     "EnsembleSampler": ["free", "box", "alpha3"],
 }
 LO = np.array([-1.0, -1.5, -2.0])
@@ -184,7 +184,10 @@ def ev_savepoint(case):
             path = os.path.join(tmp, f"s{rt}.npz")
             try:
                 with lib("save"):
-                    src.save(path)
+                    if "compressed" in cfg:
+                        src.save(path, compressed=True)
+                    else:
+                        src.save(path)
             except Exception as e:
                 add_fail(f"save/{label}/raises-{'before-first-direction-update' if kind == 'PcaChain' and not len(O1.update_history) else 'at-save-point'}",
                          f"save() at step {k} (round trip {rt}): {e}"[:500], k=k)
